@@ -79,6 +79,19 @@ def oset(o: O) -> None:
     sdeep(o.inner)
 
 @guppy
+def oreplace(o: O) -> None:
+    o.inner = S(array(7, 8), 42)
+
+@guppy.comptime
+def ct_skset(s: S) -> None:
+    s.k = s.k + 10
+
+@guppy.comptime
+def ct_otag(o: O) -> None:
+    o.tag = o.tag + 1
+    o.inner.k = o.inner.k + 20
+
+@guppy
 def flip(q: qubit) -> None:
     x(q)
 
@@ -166,6 +179,7 @@ def rebind_entry(a: array[int, 2]) -> None:
 ARR_CALLEES = ["set0", "inc1", "swap01", "nested", "rebind_branch", "rebind_loop", "rebind_entry"]
 S_CALLEES = ["sset", "sdeep"]
 Q_CALLEES = ["flip", "flip2"]
+O_CALLEES = ["oset", "oreplace"]
 
 
 def arr_places():
@@ -199,6 +213,18 @@ def s_places():
     return P
 
 
+def o_places():
+    """Places holding a struct that contains another non-copyable struct AND classical fields at two depths."""
+    def obs(e):
+        return [f'result("o0", {e}.inner.arr[0])', f'result("o1", {e}.inner.arr[1])', f'result("k", {e}.inner.k)', f'result("t", {e}.tag)']
+    P = []
+    P.append(("var", ["o = O(S(array(1, 2), 3), 4)"], "o", obs("o"), 0))
+    P.append(("array-element", ["os = array(O(S(array(1, 2), 3), 4), O(S(array(5, 6), 7), 8))"], "os[i]",
+              [l for n in range(2) for l in obs(f"os[{n}]")], 1))
+    P.append(("tuple-element", ["t = (O(S(array(1, 2), 3), 4), 5)"], "t[0]", ["o, k9 = t"] + obs("o") + ['result("k9", k9)'], 0))
+    return P
+
+
 def q_places():
     P = []
     P.append(("var", ["q = qubit()"], "q", ['result("m", measure(q))'], 0))
@@ -213,7 +239,7 @@ def programs(tier):
     out = []
     maxcalls = 2 if tier == "quick" else 3
     for places, callees, payload in ((arr_places(), ARR_CALLEES, "int-array"), (s_places(), S_CALLEES, "struct"),
-                                     (q_places(), Q_CALLEES, "qubit")):
+                                     (q_places(), Q_CALLEES, "qubit"), (o_places(), O_CALLEES, "nested-struct")):
         for (pname, setup, place, obs, nidx) in places:
             for L in range(1, maxcalls + 1):
                 for seq in itertools.product(callees, repeat=L):
@@ -227,6 +253,20 @@ def programs(tier):
                                                         'result("m", measure_array(qs))'], 1))
     out.append(("int-array", "loop", "nested-in-loop", ["a = array(1, 2)", "for _ in range(3):", "    nested(a)",
                                                         'result("o0", a[0])', 'result("o1", a[1])'], 0))
+    # the CALLER is a comptime function: every index-free program above once more, traced instead of checked ...
+    for payload, pname, seq, body, nidx in list(out):
+        if nidx == 0 and payload in ("int-array", "struct", "nested-struct") and pname != "loop":
+            out.append((payload + "@comptime-caller", pname, seq, body, nidx))
+    # ... and lent struct objects whose classical fields hold PLAIN Python values (assigned in the comptime caller)
+    for L in range(1, maxcalls + 1):
+        for seq in itertools.product(("ct_skset", "sdeep", "sset"), repeat=L):
+            out.append(("struct@comptime-caller", "var-python-field", "+".join(seq),
+                        ["s = S(array(1, 2), 3)", "s.k = 7"] + [f"{c}(s)" for c in seq] +
+                        ['result("o0", s.arr[0])', 'result("o1", s.arr[1])', 'result("k", s.k)'], 0))
+        for seq in itertools.product(("oreplace", "oset", "ct_otag"), repeat=L):
+            out.append(("nested-struct@comptime-caller", "var-python-field", "+".join(seq),
+                        ["o = O(S(array(1, 2), 3), 4)", "o.tag = 5", "o.inner.k = 6"] + [f"{c}(o)" for c in seq] +
+                        ['result("o0", o.inner.arr[0])', 'result("o1", o.inner.arr[1])', 'result("k", o.inner.k)', 'result("t", o.tag)'], 0))
     out += multi_programs(tier)
     out += mechanism_programs(tier)
     out.append(("int-array", "branch", "call-in-branch", ["a = array(1, 2)", "if i == 0:", "    set0(a)", "else:", "    inc1(a)",
@@ -344,8 +384,9 @@ def py_variant(src: str) -> str:
     return src
 
 
-def source(body):
-    return HEADER + "\n@guppy\ndef main(i: int, j: int) -> None:\n" + "\n".join("    " + l for l in body) + "\n"
+def source(body, payload=""):
+    deco = "@guppy.comptime" if payload.endswith("@comptime-caller") else "@guppy"
+    return HEADER + f"\n{deco}\ndef main(i: int, j: int) -> None:\n" + "\n".join("    " + l for l in body) + "\n"
 
 
 class _Oracle(pyoracle.Oracle):
@@ -368,7 +409,7 @@ def eval_program(item):
     import warnings
     warnings.simplefilter("ignore", SyntaxWarning)      # `(f, g)(a, b)` is a function tensor in Guppy
     payload, pname, seq, body, nidx = item
-    src = source(body)
+    src = source(body, payload)
     res = {"status": "", "dis": None, "runs": 0, "harness": None, "title": ""}
     o, mod = gload.run_src(src)
     if o.kind == "crash":
@@ -427,7 +468,7 @@ def run(ctx):
     for it, r in zip(progs, results):
         payload, pname, seq, body, nidx = it
         if r["harness"]:
-            raise RuntimeError(f"harness problem: {r['harness']}\n{source(body)}")
+            raise RuntimeError(f"harness problem: {r['harness']}\n{source(body, payload)}")
         key = f"{payload}:{pname}"
         if r["status"] == "rejected":
             rej += 1
@@ -456,4 +497,4 @@ def replay(ctx, item):
     import guppylang_internals.experimental as ex
     ex.enable_experimental_features()
     r = eval_program(tuple(item["item"]))
-    return {"violation": bool(r["dis"]), "result": r, "source": source(item["item"][3])}
+    return {"violation": bool(r["dis"]), "result": r, "source": source(item["item"][3], item["item"][0])}
